@@ -10,12 +10,12 @@ Open Scope N_scope.
 
 Definition d18a_prefix : list label :=
   [ LAdd 0 (Some 1%nat);                          (* ExecuteAt(1, f0, due now) *)
-    LWorker 0 0; LWorker 0 0; LWorker 0 0;        (* pop, timer, callback f0 starts *)
+    LWorker 0 0; LWorker 0 0; LWorker 0 0; LWorker 0 0; (* pop, select takes the timer, Poll returns, callback f0 starts *)
     LAdd 100 (Some 1%nat);                        (* ExecuteAt(1, f1, later) while f0 runs *)
     LWorker 0 0;                                  (* f0 returns: the wrapper cleans up *)
     LTCancel 1 ].                                 (* Cancel(1) *)
 Definition d18a_suffix : list label :=
-  [ LTick 100; LWorker 0 0; LWorker 0 0; LWorker 0 0 ].
+  [ LTick 100; LWorker 0 0; LWorker 0 0; LWorker 0 0; LWorker 0 0 ].
 
 Definition pinned_wrapper := init 1 0 Unconditional true true.
 Definition repaired := init 1 0 IfOwn true true.
@@ -35,7 +35,7 @@ Lemma regression_wrapper_repaired :
 Proof. vm_compute. repeat split; reflexivity. Qed.
 
 (* D18b: Cancel(id) while the callback of id runs *)
-Definition d18b : list label := [ LAdd 0 (Some 1%nat); LWorker 0 0; LWorker 0 0; LWorker 0 0; LTCancel 1 ].
+Definition d18b : list label := [ LAdd 0 (Some 1%nat); LWorker 0 0; LWorker 0 0; LWorker 0 0; LWorker 0 0; LTCancel 1 ].
 Lemma refuted_cancel_running_pinned :
   let s := run pinned_wrapper d18b in hd EReject (log s) = ETCancel 1 true /\ started (log s) = [0%nat].
 Proof. vm_compute. split; reflexivity. Qed.
@@ -46,7 +46,8 @@ Proof. vm_compute. split; reflexivity. Qed.
 (* ---------- D18c: a Cancel that completed before the select is entered loses against the timer ---------- *)
 
 Definition d18c (choice : nat) : list label :=
-  [ LAdd 5 None; LWorker 0 0 (* pop *); LCancel 0; LTick 10; LWorker 0 choice (* select: cancel and timer ready *) ].
+  [ LAdd 5 None; LWorker 0 0 (* pop *); LCancel 0; LTick 10; LWorker 0 choice (* select: cancel and timer ready *);
+    LWorker 0 0 (* the return path *) ].
 
 Lemma refuted_cancel_late_pinned :
   let l := log (run (init 1 0 IfOwn false true) (d18c 1)) in
@@ -59,6 +60,26 @@ Lemma regression_cancel_late_repaired :
   map (fun c => delivered (log (run (init 1 0 IfOwn true true) (d18c c)))) [0%nat; 1%nat; 2%nat; 3%nat] = [[]; []; []; []].
 Proof. vm_compute. reflexivity. Qed.
 
+(* the window after the select: the timer case was taken (nothing else was ready), Cancel completes, Poll returns *)
+Definition cancel_in_window : list label :=
+  [ LAdd 5 None; LWorker 0 0 (* pop *); LTick 10; LWorker 0 0 (* select takes the timer: WChosen *); LCancel 0; LTick 1;
+    LWorker 0 0 (* re-check / return *) ].
+
+(* without the re-check on the return path: delivered (stamp 11) after the Cancel completed (stamp 10) *)
+Lemma refuted_cancel_in_window_pinned :
+  let s1 := run (init 1 0 IfOwn false true) (firstn 4 cancel_in_window) in
+  let l := log (run (init 1 0 IfOwn false true) cancel_in_window) in
+  workers s1 = [WChosen (mkE 0 5 None)] /\
+  l = [EDeliver 0 11; ECancel 0 false 10; EAdd 0 5 None 0] /\ cancel_honoured 0 l = false.
+Proof. vm_compute. repeat split; reflexivity. Qed.
+
+Lemma regression_cancel_in_window_repaired :
+  let s1 := run (init 1 0 IfOwn true true) (firstn 4 cancel_in_window) in
+  let s := run (init 1 0 IfOwn true true) cancel_in_window in
+  workers s1 = [WChosen (mkE 0 5 None)] /\
+  log s = [ESkip 0; ECancel 0 false 10; EAdd 0 5 None 0] /\ workers s = [WIdle] /\ delivered (log s) = [].
+Proof. vm_compute. repeat split; reflexivity. Qed.
+
 (* ---------- D18d: Shutdown with a non-empty heap does not wake the second waiting worker ---------- *)
 
 Definition d18d : list label :=
@@ -66,7 +87,7 @@ Definition d18d : list label :=
     LAdd 5 None;                                  (* Signal wakes worker 0 *)
     LShutdown false false;                        (* heap not empty: the pinned code does not Broadcast *)
     LWorker 0 0; LWorker 0 0; LWorker 0 0;        (* pop; ctx without flags; inner select parks *)
-    LTick 10; LWorker 0 0; LWorker 0 0; LWorker 0 0; (* timer; callback; returns *)
+    LTick 10; LWorker 0 0; LWorker 0 0; LWorker 0 0; LWorker 0 0; (* timer; Poll returns; callback; returns *)
     LWorker 0 0 ].                                (* Poll: empty and shut down: the worker exits *)
 
 (* pinned: everything is delivered, but worker 1 sleeps forever (no label can wake it: Add is refused, Shutdown is a no-op) *)
